@@ -83,18 +83,29 @@ Qed.
 (* ---- the hold-back rule at the level of whole units ---- *)
 Definition prefixed (avc : bool) (n : list Z) : list Z := packaging avc [] n.
 
+(* the parameter sets a payloader holds back, in the order they were given (an SPS is only ever
+   held together with a PPS that came after it) *)
+Definition held (st : h264pay) : list (list Z) :=
+  (match hp_sps st with Some s => [s] | None => [] end) ++ (match hp_pps st with Some p => [p] | None => [] end).
+
+(* the hold-back rule: AUD and filler are dropped; with STAP-A enabled an SPS or PPS is held - what
+   was held before goes out first when it would be replaced (a second PPS) or overtaken (a new SPS,
+   any other unit); every other unit is sent behind whatever was held *)
 Definition deliver (st : h264pay) (n : list Z) : h264pay * list (list Z) :=
   let ty := nal_type n in
+  let d := hp_disable_stapa st in
   if (ty =? 9) || (ty =? 12) then (st, [])
   else if ty =? 7 then
-    if negb (hp_disable_stapa st) then (mkH264Pay false (Some n) (hp_pps st), []) else (st, [n])
+    if negb d then (mkH264Pay d (Some n) None, held st) else (st, [n])
   else if ty =? 8 then
-    if negb (hp_disable_stapa st) then (mkH264Pay false (hp_sps st) (Some n), []) else (st, [n])
+    if negb d then
+      match hp_pps st with
+      | Some _ => (mkH264Pay d None (Some n), held st)
+      | None => (mkH264Pay d (hp_sps st) (Some n), [])
+      end
+    else (st, [n])
   else
-    match negb (hp_disable_stapa st), hp_sps st, hp_pps st with
-    | true, Some s, Some p => (mkH264Pay false None None, [s; p; n])
-    | _, _, _ => (st, [n])
-    end.
+    if negb d then (mkH264Pay d None None, held st ++ [n]) else (st, [n]).
 
 Fixpoint deliver_all (st : h264pay) (ns : list (list Z)) : h264pay * list (list Z) :=
   match ns with
@@ -124,68 +135,102 @@ Proof.
   rewrite Hrun in Hrun'. injection Hrun' as <-. exists stale'. exact Hd.
 Qed.
 
+(* flushing what is held: the depacketizer gets exactly the held units, in order *)
+Lemma flush_lossless mtu st avc : 3 <= mtu <= 65535 -> held_valid st ->
+  exists fs, flush_params mtu st = Ok (mkH264Pay (hp_disable_stapa st) None None, fs) /\
+    forall stale, exists stale',
+      depack (mkH264Pkt avc stale) (map own_bytes fs)
+      = Ok (mkH264Pkt avc stale', concat (map (prefixed avc) (held st))).
+Proof.
+  intros Hm [Hhs Hhp]. unfold flush_params, held.
+  (* each held unit on its own *)
+  assert (Hind : exists fs,
+            match (match hp_sps st with Some s => packetize_nalu mtu s | None => Ok [] end) with
+            | Ok f1 =>
+              match (match hp_pps st with Some p => packetize_nalu mtu p | None => Ok [] end) with
+              | Ok f2 => Ok (mkH264Pay (hp_disable_stapa st) None None, f1 ++ f2)
+              | Err e => Err e
+              | Panic => Panic
+              end
+            | Err e => Err e
+            | Panic => Panic
+            end = Ok (mkH264Pay (hp_disable_stapa st) None None, fs) /\
+            forall stale, exists stale',
+              depack (mkH264Pkt avc stale) (map own_bytes fs)
+              = Ok (mkH264Pkt avc stale', concat (map (prefixed avc)
+                     ((match hp_sps st with Some s => [s] | None => [] end) ++ (match hp_pps st with Some p => [p] | None => [] end))))).
+  { assert (H1 : exists f1, (match hp_sps st with Some s => packetize_nalu mtu s | None => Ok [] end) = Ok f1 /\
+                  forall stale, exists stale', depack (mkH264Pkt avc stale) (map own_bytes f1)
+                    = Ok (mkH264Pkt avc stale', concat (map (prefixed avc) (match hp_sps st with Some s => [s] | None => [] end)))).
+    { destruct (hp_sps st) as [sps|]; [|exists []; split; [reflexivity|intros stale; exists stale; reflexivity]].
+      pose proof (Hhs sps eq_refl) as Hvs. destruct (unit_rt mtu sps avc ltac:(lia) Hvs) as (f1 & Hr1 & Hd1).
+      exists f1. split.
+      - unfold packetize_nalu. destruct sps; [destruct Hvs as [_ []]|exact Hr1].
+      - intros stale. destruct (Hd1 stale) as (s1 & E1). exists s1. rewrite E1. cbn [map concat]. rewrite app_nil_r. reflexivity. }
+    assert (H2 : exists f2, (match hp_pps st with Some p => packetize_nalu mtu p | None => Ok [] end) = Ok f2 /\
+                  forall stale, exists stale', depack (mkH264Pkt avc stale) (map own_bytes f2)
+                    = Ok (mkH264Pkt avc stale', concat (map (prefixed avc) (match hp_pps st with Some p => [p] | None => [] end)))).
+    { destruct (hp_pps st) as [pps|]; [|exists []; split; [reflexivity|intros stale; exists stale; reflexivity]].
+      pose proof (Hhp pps eq_refl) as Hvp. destruct (unit_rt mtu pps avc ltac:(lia) Hvp) as (f2 & Hr2 & Hd2).
+      exists f2. split.
+      - unfold packetize_nalu. destruct pps; [destruct Hvp as [_ []]|exact Hr2].
+      - intros stale. destruct (Hd2 stale) as (s1 & E1). exists s1. rewrite E1. cbn [map concat]. rewrite app_nil_r. reflexivity. }
+    destruct H1 as (f1 & -> & Hd1). destruct H2 as (f2 & -> & Hd2).
+    exists (f1 ++ f2). split; [reflexivity|]. intros stale.
+    destruct (Hd1 stale) as (s1 & E1). destruct (Hd2 s1) as (s2 & E2). exists s2.
+    rewrite map_app, depack_app, E1, E2, map_app, concat_app. reflexivity. }
+  destruct (hp_sps st) as [sps|] eqn:Es; [|exact Hind].
+  destruct (hp_pps st) as [pps|] eqn:Ep; [|exact Hind].
+  pose proof (Hhs sps eq_refl) as Hvs. pose proof (Hhp pps eq_refl) as Hvp.
+  fold (stap_of sps pps).
+  destruct (zlen (stap_of sps pps) <=? mtu) eqn:Efit; [|exact Hind].
+  assert (Hsz : zlen sps < 65536 /\ zlen pps < 65536).
+  { unfold stap_of, put16 in Efit. cbn [app] in Efit. rewrite !zlen_cons, zlen_app, !zlen_cons in Efit.
+    pose proof (zlen_nonneg sps). pose proof (zlen_nonneg pps). lia. }
+  destruct Hsz as [Hs2 Hp2].
+  exists [Own (stap_of sps pps)]. split; [reflexivity|]. intros stale. eexists.
+  cbn [map own_bytes depack].
+  rewrite (stap_decodes (mkH264Pkt avc stale) sps pps Hs2 Hp2). cbn [hk_avc app map concat].
+  rewrite !packaging_app. cbn [app]. rewrite !app_nil_r. reflexivity.
+Qed.
+
 Lemma nalu_lossless mtu st n avc : 3 <= mtu <= 65535 -> valid_nal n -> held_valid st ->
   exists fs, h264_nalu mtu st n = Ok (fst (deliver st n), fs) /\ held_valid (fst (deliver st n)) /\
     forall stale, exists stale',
       depack (mkH264Pkt avc stale) (map own_bytes fs)
       = Ok (mkH264Pkt avc stale', concat (map (prefixed avc) (snd (deliver st n)))).
 Proof.
-  intros Hm Hv [Hhs Hhp]. pose proof Hv as [Hlen Hb].
+  intros Hm Hv Hst. pose proof Hst as [Hhs Hhp]. pose proof Hv as [Hlen Hb].
   destruct n as [|b0 body]; [contradiction|].
   unfold h264_nalu, deliver. cbn [nal_type]. set (n := b0 :: body) in *.
-  (* nothing is sent: AUD, filler, or a parameter set that is held back *)
-  assert (Hnone : forall st', held_valid st' ->
-            exists fs, @Ok (h264pay * list bref) (st', []) = Ok (fst (st', @nil (list Z)), fs) /\
-              held_valid (fst (st', @nil (list Z))) /\
-              forall stale, exists stale', depack (mkH264Pkt avc stale) (map own_bytes fs)
-                = Ok (mkH264Pkt avc stale', concat (map (prefixed avc) (snd (st', @nil (list Z)))))).
-  { intros st' Hst'. exists []. split; [reflexivity|]. split; [exact Hst'|]. intros stale. exists stale. reflexivity. }
   destruct (unit_rt mtu n avc ltac:(lia) Hv) as (fs & Hrun & Hdn).
-  (* the unit itself is sent *)
-  assert (Hone : forall st', held_valid st' ->
-            exists fs0, match emit_single_or_fua mtu n with
-                       | Ok fs0 => Ok (st', [] ++ fs0) | Err e => Err e | Panic => Panic end
-                       = Ok (fst (st', [n]), fs0) /\ held_valid (fst (st', [n])) /\
+  destruct (flush_lossless mtu st avc Hm Hst) as (pre & Hfl & Hdpre).
+  (* the unit itself is sent, nothing is held *)
+  assert (Hone : exists fs0, match emit_single_or_fua mtu n with
+                       | Ok fs0 => Ok (st, [] ++ fs0) | Err e => Err e | Panic => Panic end
+                       = Ok (fst (st, [n]), fs0) /\ held_valid (fst (st, [n])) /\
               forall stale, exists stale', depack (mkH264Pkt avc stale) (map own_bytes fs0)
-                = Ok (mkH264Pkt avc stale', concat (map (prefixed avc) (snd (st', [n]))))).
-  { intros st' Hst'. rewrite Hrun. exists fs. split; [reflexivity|]. split; [exact Hst'|]. intros stale.
+                = Ok (mkH264Pkt avc stale', concat (map (prefixed avc) (snd (st, [n]))))).
+  { rewrite Hrun. exists fs. split; [reflexivity|]. split; [exact Hst|]. intros stale.
     destruct (Hdn stale) as (stale' & Hd). exists stale'. rewrite Hd. cbn [snd map concat]. rewrite app_nil_r. reflexivity. }
-  destruct ((Z.land b0 31 =? 9) || (Z.land b0 31 =? 12)); [apply Hnone; split; assumption|].
+  destruct ((Z.land b0 31 =? 9) || (Z.land b0 31 =? 12)).
+  { exists []. split; [reflexivity|]. split; [exact Hst|]. intros stale. exists stale. reflexivity. }
   destruct (Z.land b0 31 =? 7) eqn:E7.
-  { destruct (negb (hp_disable_stapa st)); [|apply Hone; split; assumption].
-    apply Hnone. split; cbn [hp_sps hp_pps]; [|exact Hhp]. intros s [= <-]. exact Hv. }
+  { destruct (negb (hp_disable_stapa st)); [|exact Hone].
+    rewrite Hfl. cbn [hp_disable_stapa hp_pps]. exists pre. split; [reflexivity|].
+    split; [split; cbn [fst hp_sps hp_pps]; [intros s [= <-]; exact Hv|intros p [=]]|]. exact Hdpre. }
   destruct (Z.land b0 31 =? 8) eqn:E8.
-  { destruct (negb (hp_disable_stapa st)); [|apply Hone; split; assumption].
-    apply Hnone. split; cbn [hp_sps hp_pps]; [exact Hhs|]. intros s [= <-]. exact Hv. }
-  destruct (negb (hp_disable_stapa st)); [|apply Hone; split; assumption].
-  destruct (hp_sps st) as [sps|] eqn:Es; [|apply Hone; split; [rewrite Es|]; assumption].
-  destruct (hp_pps st) as [pps|] eqn:Ep; [|apply Hone; split; [rewrite Es|rewrite Ep]; assumption].
-  pose proof (Hhs sps eq_refl) as Hvs. pose proof (Hhp pps eq_refl) as Hvp.
-  fold (stap_of sps pps). rewrite Hrun.
-  destruct (zlen (stap_of sps pps) <=? mtu) eqn:Efit.
-  - (* STAP-A of the held pair, then the unit *)
-    assert (Hsz : zlen sps < 65536 /\ zlen pps < 65536).
-    { unfold stap_of, put16 in Efit. cbn [app] in Efit. rewrite !zlen_cons, zlen_app, !zlen_cons in Efit.
-      pose proof (zlen_nonneg sps). pose proof (zlen_nonneg pps). lia. }
-    destruct Hsz as [Hs2 Hp2].
-    exists ([Own (stap_of sps pps)] ++ fs). split; [reflexivity|].
-    split; [apply held_valid_fresh|].
-    intros stale. destruct (Hdn stale) as (stale' & Hd). exists stale'.
-    rewrite map_app, depack_app. cbn [map own_bytes depack].
-    rewrite (stap_decodes (mkH264Pkt avc stale) sps pps Hs2 Hp2). cbn [hk_avc]. rewrite Hd.
-    cbn [snd map concat]. rewrite !packaging_app. cbn [app]. rewrite !app_nil_r, <- !app_assoc. reflexivity.
-  - (* the pair does not fit one STAP-A: SPS, PPS and the unit, each on its own *)
-    destruct (unit_rt mtu sps avc ltac:(lia) Hvs) as (f1 & Hr1 & Hd1).
-    destruct (unit_rt mtu pps avc ltac:(lia) Hvp) as (f2 & Hr2 & Hd2).
-    assert (Hp1 : packetize_nalu mtu sps = Ok f1).
-    { unfold packetize_nalu. destruct sps; [destruct Hvs as [_ []]|exact Hr1]. }
-    assert (Hp2 : packetize_nalu mtu pps = Ok f2).
-    { unfold packetize_nalu. destruct pps; [destruct Hvp as [_ []]|exact Hr2]. }
-    rewrite Hp1, Hp2.
-    exists ((f1 ++ f2) ++ fs). split; [reflexivity|]. split; [apply held_valid_fresh|].
-    intros stale. destruct (Hd1 stale) as (s1 & E1). destruct (Hd2 s1) as (s2 & E2). destruct (Hdn s2) as (s3 & E3).
-    exists s3. rewrite !map_app, !depack_app, E1, E2, E3.
-    cbn [snd map concat]. rewrite app_nil_r, <- !app_assoc. reflexivity.
+  { destruct (negb (hp_disable_stapa st)); [|exact Hone].
+    destruct (hp_pps st) as [pps|] eqn:Epps.
+    - rewrite Hfl. cbn [hp_disable_stapa hp_sps]. exists pre. split; [reflexivity|].
+      split; [split; cbn [fst hp_sps hp_pps]; [intros s [=]|intros p [= <-]; exact Hv]|]. exact Hdpre.
+    - exists []. split; [reflexivity|].
+      split; [split; cbn [fst hp_sps hp_pps]; [exact Hhs|intros p [= <-]; exact Hv]|].
+      intros stale. exists stale. reflexivity. }
+  destruct (negb (hp_disable_stapa st)); [|exact Hone].
+  rewrite Hfl, Hrun. exists (pre ++ fs). split; [reflexivity|]. split; [apply held_valid_fresh|].
+  intros stale. destruct (Hdpre stale) as (s1 & E1). destruct (Hdn s1) as (s2 & E2). exists s2.
+  rewrite map_app, depack_app, E1, E2. cbn [snd]. rewrite map_app, concat_app. cbn [map concat]. rewrite app_nil_r. reflexivity.
 Qed.
 
 Theorem nalus_lossless mtu avc : 3 <= mtu <= 65535 -> forall ns st,
@@ -227,3 +272,50 @@ Proof.
   destruct (nalus_lossless mtu avc Hm (n :: map snd t) st Hv Hh) as (fs & H1 & _ & Hd).
   exists fs. split; [exact H1|exact Hd].
 Qed.
+
+(* ---- nothing is lost, nothing is reordered: what has been delivered, followed by what is still held
+   back, is what was held before followed by the units given (AUD and filler dropped) - in order ---- *)
+Definition kept (n : list Z) : bool := negb ((nal_type n =? 9) || (nal_type n =? 12)).
+
+Definition hold_ok (st : h264pay) : Prop := hp_disable_stapa st = true -> held st = [].
+
+Lemma deliver_complete st n : hold_ok st ->
+  snd (deliver st n) ++ held (fst (deliver st n)) = held st ++ (if kept n then [n] else []) /\
+  hp_disable_stapa (fst (deliver st n)) = hp_disable_stapa st /\ hold_ok (fst (deliver st n)).
+Proof.
+  intros Hh. unfold deliver, kept, hold_ok in *.
+  destruct ((nal_type n =? 9) || (nal_type n =? 12)); cbn [negb fst snd].
+  { rewrite ?app_nil_r. auto. }
+  destruct (nal_type n =? 7).
+  { destruct (hp_disable_stapa st) eqn:Ed; cbn [negb fst snd].
+    - split; [rewrite (Hh eq_refl); reflexivity|]. split; [exact Ed|intros _; apply Hh; reflexivity].
+    - unfold held at 2. cbn [hp_sps hp_pps hp_disable_stapa app]. rewrite ?app_nil_r.
+      split; [reflexivity|]. split; [reflexivity|discriminate]. }
+  destruct (nal_type n =? 8).
+  { destruct (hp_disable_stapa st) eqn:Ed; cbn [negb fst snd].
+    - split; [rewrite (Hh eq_refl); reflexivity|]. split; [exact Ed|intros _; apply Hh; reflexivity].
+    - destruct (hp_pps st) as [pps|] eqn:Ep; cbn [fst snd].
+      + unfold held at 2. cbn [hp_sps hp_pps hp_disable_stapa app].
+        split; [reflexivity|]. split; [reflexivity|discriminate].
+      + unfold held. cbn [hp_sps hp_pps hp_disable_stapa app]. rewrite Ep, ?app_nil_r.
+        split; [reflexivity|]. split; [reflexivity|discriminate]. }
+  destruct (hp_disable_stapa st) eqn:Ed; cbn [negb fst snd].
+  - split; [rewrite (Hh eq_refl); reflexivity|]. split; [exact Ed|intros _; apply Hh; reflexivity].
+  - unfold held at 2. cbn [hp_sps hp_pps hp_disable_stapa app]. rewrite ?app_nil_r.
+    split; [reflexivity|]. split; [reflexivity|discriminate].
+Qed.
+
+Theorem deliver_all_complete : forall ns st, hold_ok st ->
+  snd (deliver_all st ns) ++ held (fst (deliver_all st ns)) = held st ++ filter kept ns.
+Proof.
+  induction ns as [|n t IH]; intros st Hh; cbn [deliver_all filter].
+  - cbn [fst snd app]. rewrite app_nil_r. reflexivity.
+  - destruct (deliver_complete st n Hh) as (H1 & _ & Hh1).
+    destruct (deliver st n) as [st1 d1]. cbn [fst snd] in *.
+    specialize (IH st1 Hh1). destruct (deliver_all st1 t) as [st2 d2]. cbn [fst snd] in *.
+    rewrite <- app_assoc, IH, app_assoc, H1, <- app_assoc. f_equal.
+    destruct (kept n); reflexivity.
+Qed.
+
+Lemma hold_ok_fresh d : hold_ok (mkH264Pay d None None).
+Proof. intros _. reflexivity. Qed.
